@@ -119,6 +119,17 @@ func safeAfterASI(next string) bool {
 // Render writes the tokens with drawn separators. dense: explicit semicolons, separators only where required.
 // It returns the text and the number of semicolons left to automatic semicolon insertion.
 func Render(t *rapid.T, toks []Tok, dense bool) (string, int) {
+	return render(t, toks, dense, false)
+}
+
+// RenderBang is Render(t, toks, false) with every comment separator written as a /*! */ comment (which the parser keeps
+// in the tree as a Comment statement in front of the statement list it occurs in; it separates tokens and carries line
+// terminators like any other comment).
+func RenderBang(t *rapid.T, toks []Tok) (string, int) {
+	return render(t, toks, false, true)
+}
+
+func render(t *rapid.T, toks []Tok, dense, bang bool) (string, int) {
 	var sb strings.Builder
 	r := &renderer{}
 	asi := 0
@@ -169,6 +180,9 @@ func Render(t *rapid.T, toks []Tok, dense bool) (string, int) {
 			}
 		}
 		pendingLT = false
+		if bang {
+			sep = strings.Replace(sep, "/*", "/*!", 1)
+		}
 		sb.WriteString(sep)
 		sb.WriteString(k.S)
 		r.push(k.S, sep != "")
